@@ -21,8 +21,8 @@ def run(ctx):
         fam.mc_holds(ctx, "MC full layer, 1 damaged component", readers=1, numsegs=1, ranges="R_all1", dmg=1, dvals=dv, badsegs=0)
     else:
         fam.mc_holds(ctx, "MC full layer, 2 damaged components", readers=1, numsegs=1, ranges="R_all1", dmg=2, dvals=dv, badsegs=1)
-        fam.mc_holds(ctx, "MC full layer, 2 segments, lying instance", readers=1, numsegs=2, ranges="R_any2", dmg=1, dvals=dv,
-                     badsegs=1, liars=1, tamper=2)
+        fam.mc_holds(ctx, "MC full layer, 2 segments, lying instance", readers=1, numsegs=2, ranges="R_all2", dmg=1, dvals=dv,
+                     badsegs=0, liars=1, tamper=2)
     fam.mc_demo(ctx, "MC block validation switched off", ["C02_OnlyGenuine", "C03_NoFalseSuccess", "C03_Contract", "C03_ErrorClass"],
                 readers=1, numsegs=1, ranges="R_all1", dmg=1, dvals=("forged",), validate="NoChecksBlk", liveness=False)
     fam.mc_demo(ctx, "MC ciphertext-hash check switched off", ["C02_OnlyGenuine"],
